@@ -125,7 +125,9 @@ def at_rules(ctx, I, rmap=None):
                 ctx.report(R('C14.R2'), where, 'disable without exit sequence', 'an open episode is closed without '
                            're-synchronisation commands: ' + tag)
             else:
-                elems = s.seqs[lists[0]]
+                # the complete sequence: with list concatenation several partial lists exist, the result is the longest (and latest)
+                best = max(range(len(lists)), key=lambda ix: (len(s.seqs[lists[ix]]), ix))
+                elems = s.seqs[lists[best]]
                 want = []
                 for el in elems:
                     if isinstance(el, Star):
